@@ -335,17 +335,6 @@ theorem ovf_exact {g : G} {old cur S : Int} (hS : g.count = S) (hS0 : 0 ≤ S) (
   unfold ovf wrap32
   omega
 
-/-- `SetState` registers a fresh `instanceState{}` for an unknown instance before anything else -/
-def ensure (g : G) (inst : Str) : G :=
-  match find inst g.states with
-  | some _ => g
-  | none => { g with states := put inst ⟨0, 0⟩ g.states }
-
-def stateOf (g : G) (inst : Str) : Inst :=
-  match find inst g.states with
-  | some s => s
-  | none => ⟨0, 0⟩
-
 theorem setState_report (g : G) (inst : Str) (rid cur : Int) (h : 0 ≤ cur) :
     setState g inst rid cur = report (ensure g inst) inst (stateOf g inst) rid cur := by
   have hn : ¬ cur < 0 := by omega
@@ -825,5 +814,701 @@ theorem tbLoop_accept_halving (nows : List Int) (b : Bucket) (t : Int)
       · simp only [hz, if_false] at h ⊢
         obtain ⟨k, hk, e⟩ := ih _ _ h
         exact ⟨k + 1, by simp; omega, by rw [e]; rfl⟩
+
+/-! ### the fine-grained system: every step preserves `FInv` -/
+
+theorem pcInv_congr {g g' : G} (hc : g'.count = g.count) (hs : g'.states = g.states) (pc : Pc) :
+    PcInv g' pc ↔ PcInv g pc := by
+  cases pc <;> simp [PcInv, hc, hs]
+
+theorem lt_of_getElem? {l : List Pc} {t : Nat} {pc : Pc} (h : l[t]? = some pc) : t < l.length := by
+  rcases Nat.lt_or_ge t l.length with h1 | h1
+  · exact h1
+  · rw [List.getElem?_eq_none h1] at h; cases h
+
+theorem set_self {l : List Pc} {t : Nat} {pc p' : Pc} (h : l[t]? = some pc) : (l.set t p')[t]? = some p' := by
+  rw [List.getElem?_set_self (lt_of_getElem? h)]
+
+theorem set_other {l : List Pc} {t t' : Nat} {p' : Pc} (h : t' ≠ t) : (l.set t p')[t']? = l[t']? := by
+  rw [List.getElem?_set_ne (fun e => h e.symm)]
+
+/-- a step of a thread that is outside the critical section and stays outside; it may store `max` -/
+theorem frame_outside {s : Fine} {t : Nat} {pc p' : Pc} {g' : G} (h : FInv s) (hp : s.pcs[t]? = some pc)
+    (hout : inside pc = false) (hout' : inside p' = false) (hc : g'.count = s.g.count) (hs : g'.states = s.g.states)
+    (hargs : ∀ i r c, p' = Pc.wantLock i r c → InI32 c) :
+    FInv ⟨g', s.owner, s.pcs.set t p'⟩ := by
+  refine ⟨hs ▸ h.allOk, hs ▸ h.nodup, ?_, ?_, ?_, ?_⟩
+  · intro t' pc' hp' hin
+    by_cases ht : t' = t
+    · subst ht; rw [set_self hp] at hp'; cases hp'; rw [hout'] at hin; cases hin
+    · rw [set_other ht] at hp'; exact h.excl t' pc' hp' hin
+  · intro t' ho
+    obtain ⟨pc', hp', hin, hinv⟩ := h.own t' ho
+    have ht : t' ≠ t := by
+      intro e; subst e; rw [hp] at hp'; cases hp'; rw [hout] at hin; cases hin
+    exact ⟨pc', by rw [set_other ht]; exact hp', hin, (pcInv_congr hc hs pc').2 hinv⟩
+  · intro ho; show g'.count = wrap32 (sumStates g'.states); rw [hc, hs]; exact h.free ho
+  · intro t' i r c hp'
+    by_cases ht : t' = t
+    · subst ht; rw [set_self hp] at hp'; cases hp'; exact hargs i r c rfl
+    · rw [set_other ht] at hp'; exact h.args t' i r c hp'
+
+/-- the owner moves from one pc inside the critical section to another -/
+theorem frame_inside {s : Fine} {t : Nat} {pc p' : Pc} {g' : G} (h : FInv s) (hp : s.pcs[t]? = some pc)
+    (hin : inside pc = true) (hin' : inside p' = true) (hall : AllOk g'.states) (hnd : (keys g'.states).Nodup)
+    (hinv : PcInv g' p') : FInv ⟨g', s.owner, s.pcs.set t p'⟩ := by
+  have ho : s.owner = some t := h.excl t pc hp hin
+  refine ⟨hall, hnd, ?_, ?_, ?_, ?_⟩
+  · intro t' pc' hp' hin2
+    by_cases ht : t' = t
+    · subst ht; exact ho
+    · rw [set_other ht] at hp'; exact h.excl t' pc' hp' hin2
+  · intro t' ho'
+    have : t' = t := by rw [ho] at ho'; cases ho'; rfl
+    subst this
+    exact ⟨p', set_self hp, hin', hinv⟩
+  · intro ho'; rw [ho] at ho'; cases ho'
+  · intro t' i r c hp'
+    by_cases ht : t' = t
+    · subst ht; rw [set_self hp] at hp'; cases hp'; cases hin'
+    · rw [set_other ht] at hp'; exact h.args t' i r c hp'
+
+theorem own_inv {s : Fine} {t : Nat} {pc : Pc} (h : FInv s) (hp : s.pcs[t]? = some pc) (hin : inside pc = true) :
+    PcInv s.g pc := by
+  obtain ⟨pc', hp', _, hinv⟩ := h.own t (h.excl t pc hp hin)
+  rw [hp] at hp'; cases hp'; exact hinv
+
+theorem okCount_of_find {l : States} {k : Str} {st : Inst} (h : AllOk l) (hf : find k l = some st) : okCount st.count :=
+  allOk_find h hf
+
+/-- **Every step of the fine-grained system preserves the invariant.** -/
+theorem fineStep_inv (s s' : Fine) (t : Nat) (call : Option Op) (h : FInv s)
+    (hcall : ∀ op, call = some op → OpI32 op) (hs : fineStep s t call = some s') : FInv s' := by
+  unfold fineStep at hs
+  cases hp : s.pcs[t]? with
+  | none => rw [hp] at hs; cases hs
+  | some pc =>
+    rw [hp] at hs
+    simp only [setPc] at hs
+    cases pc with
+    | idle =>
+      cases call with
+      | none => cases hs
+      | some op =>
+        cases op with
+        | set i r c =>
+          simp only [Option.some.injEq] at hs; subst hs
+          exact frame_outside h hp rfl rfl rfl rfl (fun i' r' c' e => by cases e; exact hcall _ rfl)
+        | resize n =>
+          simp only at hs
+          split at hs <;> (simp only [Option.some.injEq] at hs; subst hs)
+          · exact frame_outside h hp rfl rfl rfl rfl (fun _ _ _ e => by cases e)
+          · exact frame_outside h hp rfl rfl rfl rfl (fun _ _ _ e => by cases e)
+    | resizeStore n =>
+      simp only [Option.some.injEq] at hs; subst hs
+      exact frame_outside h hp rfl rfl rfl rfl (fun _ _ _ e => by cases e)
+    | wantLock i r c =>
+      cases ho : s.owner with
+      | some _ => rw [ho] at hs; cases hs
+      | none =>
+        rw [ho] at hs
+        simp only [Option.some.injEq] at hs; subst hs
+        refine ⟨h.allOk, h.nodup, ?_, ?_, ?_, ?_⟩
+        · intro t' pc' hp' hin
+          by_cases ht : t' = t
+          · subst ht; rfl
+          · rw [set_other ht] at hp'
+            have := h.excl t' pc' hp' hin
+            rw [ho] at this; cases this
+        · intro t' ho'
+          simp only [Option.some.injEq] at ho'; subst ho'
+          exact ⟨_, set_self hp, rfl, h.free ho, h.args t i r c hp⟩
+        · intro ho'; cases ho'
+        · intro t' i' r' c' hp'
+          by_cases ht : t' = t
+          · subst ht; rw [set_self hp] at hp'; cases hp'
+          · rw [set_other ht] at hp'; exact h.args t' i' r' c' hp'
+    | locked i r c =>
+      obtain ⟨hcnt, hc⟩ := own_inv h hp rfl
+      simp only at hs
+      cases hf : find i s.g.states with
+      | some st =>
+        rw [hf] at hs
+        simp only at hs
+        split at hs <;> (simp only [Option.some.injEq] at hs; subst hs)
+        · -- removal: entry deleted
+          have hst := okCount_of_find h.allOk hf
+          refine frame_inside h hp rfl rfl (allOk_erase h.allOk) (nodup_erase h.nodup) ⟨?_, hst⟩
+          show s.g.count = wrap32 (sumStates (erase i s.g.states) + st.count)
+          rw [sum_erase_some hf, hcnt]; congr 1; omega
+        · rename_i hneg
+          refine frame_inside h hp rfl rfl h.allOk h.nodup ⟨hcnt, ⟨by omega, hc.2⟩, by rw [hf]; rfl⟩
+      | none =>
+        rw [hf] at hs
+        simp only at hs
+        split at hs <;> (simp only [Option.some.injEq] at hs; subst hs)
+        · exact frame_inside h hp rfl rfl h.allOk h.nodup hcnt
+        · rename_i hneg
+          refine frame_inside h hp rfl rfl (allOk_put h.allOk (by simp)) (nodup_put h.nodup) ⟨?_, ⟨by omega, hc.2⟩, ?_⟩
+          · show s.g.count = wrap32 (sumStates (put i _ s.g.states))
+            rw [sum_put_none hf, hcnt]; congr 1; simp
+          · show (find i (put i _ s.g.states)).isSome = true
+            rw [find_put_self]; rfl
+    | rmDeleted st =>
+      obtain ⟨hcnt, hst⟩ := own_inv h hp rfl
+      simp only [Option.some.injEq] at hs; subst hs
+      refine frame_inside h hp rfl rfl h.allOk h.nodup ?_
+      show wrap32 (s.g.count + wrap32 (-st.count)) = wrap32 (sumStates s.g.states)
+      rw [hcnt]; unfold wrap32; omega
+    | unlocking rep =>
+      have hcnt : s.g.count = wrap32 (sumStates s.g.states) := own_inv h hp rfl
+      have ho : s.owner = some t := h.excl t _ hp rfl
+      simp only [Option.some.injEq] at hs; subst hs
+      refine ⟨h.allOk, h.nodup, ?_, ?_, fun _ => hcnt, ?_⟩
+      · intro t' pc' hp' hin
+        by_cases ht : t' = t
+        · subst ht; rw [set_self hp] at hp'; cases hp'; cases hin
+        · rw [set_other ht] at hp'
+          have := h.excl t' pc' hp' hin
+          rw [ho] at this; cases this; exact absurd rfl ht
+      · intro t' ho'; cases ho'
+      · intro t' i' r' c' hp'
+        by_cases ht : t' = t
+        · subst ht; rw [set_self hp] at hp'; cases hp'
+        · rw [set_other ht] at hp'; exact h.args t' i' r' c' hp'
+    | haveState i r c =>
+      obtain ⟨hcnt, hc, hsome⟩ := own_inv h hp rfl
+      simp only at hs
+      split at hs
+      · cases hf : find i s.g.states with
+        | none => rw [hf] at hs; cases hs
+        | some st =>
+          rw [hf] at hs
+          simp only at hs
+          split at hs <;> (simp only [Option.some.injEq] at hs; subst hs)
+          · exact frame_inside h hp rfl rfl h.allOk h.nodup hcnt
+          · exact frame_inside h hp rfl rfl h.allOk h.nodup ⟨hcnt, hc, hsome⟩
+      · simp only [Option.some.injEq] at hs; subst hs
+        exact frame_inside h hp rfl rfl h.allOk h.nodup ⟨hcnt, hc, hsome⟩
+    | idChecked i r c =>
+      obtain ⟨hcnt, hc, hsome⟩ := own_inv h hp rfl
+      simp only at hs
+      cases hf : find i s.g.states with
+      | none => rw [hf] at hs; cases hs
+      | some st =>
+        rw [hf] at hs
+        simp only [Option.some.injEq] at hs; subst hs
+        have hst := okCount_of_find h.allOk hf
+        refine frame_inside h hp rfl rfl (allOk_put h.allOk hst) (nodup_put h.nodup) ⟨?_, hc, ?_⟩
+        · show s.g.count = wrap32 (sumStates (put i _ s.g.states))
+          rw [sum_put_some hf, hcnt]; congr 1; simp
+        · show (find i (put i _ s.g.states)).isSome = true
+          rw [find_put_self]; rfl
+    | idStored i r c =>
+      obtain ⟨hcnt, hc, hsome⟩ := own_inv h hp rfl
+      simp only at hs
+      cases hf : find i s.g.states with
+      | none => rw [hf] at hs; cases hs
+      | some st =>
+        rw [hf] at hs
+        simp only [Option.some.injEq] at hs; subst hs
+        have hst := okCount_of_find h.allOk hf
+        refine frame_inside h hp rfl rfl (allOk_put h.allOk hc) (nodup_put h.nodup) ⟨?_, hc, hst, ⟨st.requestId, ?_⟩⟩
+        · show s.g.count = wrap32 (sumStates (put i _ s.g.states) - c + st.count)
+          rw [sum_put_some hf, hcnt]; congr 1; simp
+        · show find i (put i _ s.g.states) = _
+          rw [find_put_self]
+    | swapped i r c old =>
+      obtain ⟨hcnt, hc, hold, id, hf⟩ := own_inv h hp rfl
+      simp only [Option.some.injEq] at hs; subst hs
+      have hd : wrap32 (c - old) = c - old := wrap32_id (by unfold okCount at hc hold; unfold InI32; omega)
+      refine frame_inside h hp rfl rfl h.allOk h.nodup ⟨rfl, ?_, hd, hc, hold, ⟨id, hf⟩⟩
+      show wrap32 (s.g.count + wrap32 (c - old)) = wrap32 (sumStates s.g.states)
+      rw [hd, hcnt]; unfold wrap32; omega
+    | added i r c old delta cnt =>
+      obtain ⟨hg, hcnt, hdelta, hc, hold, id, hf⟩ := own_inv h hp rfl
+      simp only at hs
+      have hcnt' : s.g.count = wrap32 (sumStates s.g.states) := by rw [hg]; exact hcnt
+      split at hs
+      · simp only [Option.some.injEq] at hs; subst hs
+        exact frame_inside h hp rfl rfl h.allOk h.nodup ⟨hcnt', hold, c, id, hf, hdelta, hc⟩
+      · split at hs <;> (simp only [Option.some.injEq] at hs; subst hs) <;>
+          exact frame_inside h hp rfl rfl h.allOk h.nodup hcnt'
+    | rollback1 i old delta =>
+      obtain ⟨hcnt, hold, c, id, hf, hdelta, hc⟩ := own_inv h hp rfl
+      simp only at hs
+      rw [hf] at hs
+      simp only [Option.some.injEq] at hs; subst hs
+      have hback : wrap32 (c + wrap32 (-delta)) = old := by
+        subst hdelta; unfold okCount at hc hold; unfold wrap32; omega
+      refine frame_inside h hp rfl rfl (allOk_put h.allOk (by show okCount _; simp only; rw [hback]; exact hold))
+        (nodup_put h.nodup) ⟨?_, by subst hdelta; unfold okCount at hc hold; unfold InI32; omega⟩
+      show s.g.count = wrap32 (sumStates (put i _ s.g.states) + delta)
+      rw [sum_put_some hf, hcnt]
+      simp only
+      congr 1; omega
+    | rollback2 old delta =>
+      obtain ⟨hcnt, hd⟩ := own_inv h hp rfl
+      simp only [Option.some.injEq] at hs; subst hs
+      refine frame_inside h hp rfl rfl h.allOk h.nodup ?_
+      show wrap32 (s.g.count + wrap32 (-delta)) = wrap32 (sumStates s.g.states)
+      rw [hcnt]; unfold InI32 at hd; unfold wrap32; omega
+
+theorem fineInit_inv (m : Int) (n : Nat) : FInv (fineInit m n) := by
+  refine ⟨fun _ hp => by simp [fineInit, G.init] at hp, by simp [fineInit, G.init, keys], ?_, ?_, ?_, ?_⟩
+  · intro t pc hp hin
+    simp only [fineInit] at hp
+    have := List.mem_of_getElem? hp
+    rw [List.mem_replicate] at this
+    rw [this.2] at hin; cases hin
+  · intro t ho; cases ho
+  · intro _; simp [fineInit, G.init, sumStates, wrap32]
+  · intro t i r c hp
+    simp only [fineInit] at hp
+    have := List.mem_of_getElem? hp
+    rw [List.mem_replicate] at this
+    cases this.2
+
+theorem fineRun_inv (sched : List (Nat × Option Op)) (s s' : Fine) (h : FInv s)
+    (hcalls : ∀ e ∈ sched, ∀ op, e.2 = some op → OpI32 op) (hr : fineRun s sched = some s') : FInv s' := by
+  induction sched generalizing s with
+  | nil => simp only [fineRun, Option.some.injEq] at hr; subst hr; exact h
+  | cons e rest ih =>
+    obtain ⟨t, call⟩ := e
+    simp only [fineRun] at hr
+    cases hst : fineStep s t call with
+    | none => rw [hst] at hr; cases hr
+    | some s1 =>
+      rw [hst] at hr
+      exact ih s1 (fineStep_inv s s1 t call h (hcalls (t, call) (List.mem_cons_self ..)) hst)
+        (fun e he => hcalls e (List.mem_cons_of_mem _ he)) hr
+
+/-! ### forward simulation: fine-grained steps are matched by at most one atomic step -/
+
+theorem put_put (k : Str) (v w : Inst) (l : States) : put k w (put k v l) = put k w l := by
+  induction l with
+  | nil => simp [put]
+  | cons p r ih =>
+    obtain ⟨k2, v2⟩ := p
+    by_cases h2 : k2 = k
+    · simp [put, h2]
+    · simp [put, h2, ih]
+
+theorem put_same {k : Str} {v : Inst} {l : States} (h : find k l = some v) : put k v l = l := by
+  induction l with
+  | nil => simp [find] at h
+  | cons p r ih =>
+    obtain ⟨k2, v2⟩ := p
+    by_cases h2 : k2 = k
+    · simp only [find, h2, if_true, Option.some.injEq] at h
+      simp [put, h2, h]
+    · simp only [find, h2, if_false] at h
+      simp [put, h2, ih h]
+
+theorem G_ext {a b : G} (h1 : a.max = b.max) (h2 : a.count = b.count) (h3 : a.states = b.states) : a = b := by
+  cases a; cases b; simp only at h1 h2 h3; subst h1; subst h2; subst h3; rfl
+
+theorem ensure_eq_of_find {g : G} {i : Str} {st : Inst} (h : find i g.states = some st) : ensure g i = g := by
+  unfold ensure; rw [h]
+
+theorem stateOf_of_find {g : G} {i : Str} {st : Inst} (h : find i g.states = some st) : stateOf g i = st := by
+  unfold stateOf; rw [h]
+
+theorem simPc_congr_max {g a a' : G} (hc : a'.count = a.count) (hs : a'.states = a.states) (pc : Pc) :
+    SimPc g a' pc ↔ SimPc g a pc := by
+  have he : ∀ i, (ensure a' i).states = (ensure a i).states := by
+    intro i; unfold ensure; rw [hs]; cases find i a.states <;> simp [hs]
+  have hst : ∀ i, stateOf a' i = stateOf a i := by intro i; unfold stateOf; rw [hs]
+  cases pc <;> simp [SimPc, hc, hs, he, hst]
+
+/-- replace the owner's pc, keeping the simulation -/
+theorem sim_owner_step {s : Fine} {a' : G} {t : Nat} {pc p' : Pc} {g' : G} (h : FInv s) (hp : s.pcs[t]? = some pc)
+    (hin : inside pc = true) (hmax : a'.max = g'.max) (hsim : SimPc g' a' p') :
+    Sim ⟨g', s.owner, s.pcs.set t p'⟩ a' := by
+  have ho : s.owner = some t := h.excl t pc hp hin
+  refine ⟨hmax, ?_⟩
+  simp only [ho]
+  exact ⟨p', set_self hp, hsim⟩
+
+theorem sim_owner_pc (pc : Pc) {s : Fine} {a : G} {t : Nat} (h : FInv s) (hsim : Sim s a) (hp : s.pcs[t]? = some pc)
+    (hin : inside pc = true) : SimPc s.g a pc := by
+  have ho : s.owner = some t := h.excl t pc hp hin
+  obtain ⟨_, hm⟩ := hsim
+  rw [ho] at hm
+  obtain ⟨pc', hp', hs⟩ := hm
+  rw [hp] at hp'; cases hp'; exact hs
+
+/-- a thread outside the critical section moves (possibly storing `max`); the atomic state changes only in `max` -/
+theorem sim_outside {s : Fine} {a a' : G} {t : Nat} {pc p' : Pc} {g' : G} (h : FInv s) (hsim : Sim s a)
+    (hp : s.pcs[t]? = some pc) (hout : inside pc = false)
+    (hc : g'.count = s.g.count) (hs : g'.states = s.g.states)
+    (hmax : a'.max = g'.max) (hac : a'.count = a.count) (has : a'.states = a.states) :
+    Sim ⟨g', s.owner, s.pcs.set t p'⟩ a' := by
+  refine ⟨hmax, ?_⟩
+  obtain ⟨_, hm⟩ := hsim
+  cases ho : s.owner with
+  | none => rw [ho] at hm; simp only; rw [hac, has, hc, hs]; exact hm
+  | some to =>
+    rw [ho] at hm
+    obtain ⟨pc', hp', hspc⟩ := hm
+    have hne : to ≠ t := by
+      intro e; subst e
+      obtain ⟨pc2, hp2, hin2, _⟩ := h.own to ho
+      rw [hp] at hp2; cases hp2; rw [hout] at hin2; cases hin2
+    simp only
+    refine ⟨pc', by rw [set_other hne]; exact hp', ?_⟩
+    have : SimPc g' a pc' := by
+      have hg : g' = ⟨g'.max, s.g.count, s.g.states⟩ := G_ext rfl hc hs
+      -- SimPc never looks at g.max
+      cases pc' <;> simp only [SimPc] at hspc ⊢ <;> (try rw [hc, hs]) <;> exact hspc
+    exact (simPc_congr_max hac has pc').2 this
+
+/-- **Forward simulation.** Every step of the fine-grained system is matched by no step or by ONE step of the
+    atomic system — the call the stepping thread is executing. -/
+theorem fineStep_sim (s s' : Fine) (a : G) (t : Nat) (call : Option Op) (h : FInv s) (hsim : Sim s a)
+    (hs : fineStep s t call = some s') :
+    ∃ ops : List Op, Sim s' (run a ops) ∧
+      ∀ op ∈ ops, (∃ pc, s.pcs[t]? = some pc ∧ pendingOp pc = some op) := by
+  unfold fineStep at hs
+  cases hp : s.pcs[t]? with
+  | none => rw [hp] at hs; cases hs
+  | some pc =>
+    rw [hp] at hs
+    simp only [setPc] at hs
+    have hmax0 : a.max = s.g.max := hsim.1
+    have none_step : ∀ {s1 : Fine}, Sim s1 a → ∃ ops : List Op, Sim s1 (run a ops) ∧
+        ∀ op ∈ ops, (∃ pc', some pc = some pc' ∧ pendingOp pc' = some op) :=
+      fun hs1 => ⟨[], hs1, fun _ hm => by cases hm⟩
+    have one_step : ∀ {s1 : Fine} (op : Op), Sim s1 (step a op) → pendingOp pc = some op →
+        ∃ ops : List Op, Sim s1 (run a ops) ∧ ∀ op ∈ ops, (∃ pc', some pc = some pc' ∧ pendingOp pc' = some op) :=
+      fun op hs1 hpo => ⟨[op], hs1, fun o hm => by simp only [List.mem_singleton] at hm; subst hm; exact ⟨pc, rfl, hpo⟩⟩
+    cases pc with
+    | idle =>
+      cases call with
+      | none => cases hs
+      | some op =>
+        cases op with
+        | set i r c =>
+          simp only [Option.some.injEq] at hs; subst hs
+          exact none_step (sim_outside h hsim hp rfl rfl rfl hmax0 rfl rfl)
+        | resize n =>
+          simp only at hs
+          split at hs <;> (simp only [Option.some.injEq] at hs; subst hs) <;>
+            exact none_step (sim_outside h hsim hp rfl rfl rfl hmax0 rfl rfl)
+    | resizeStore n =>
+      simp only [Option.some.injEq] at hs; subst hs
+      refine one_step (.resize n) ?_ rfl
+      show Sim _ (resize a n).1
+      have hr : (resize a n).1.max = n ∧ (resize a n).1.count = a.count ∧ (resize a n).1.states = a.states := by
+        unfold resize; split
+        · exact ⟨rfl, rfl, rfl⟩
+        · rename_i hne; exact ⟨by simpa using hne, rfl, rfl⟩
+      exact sim_outside h hsim hp rfl rfl rfl hr.1 hr.2.1 hr.2.2
+    | wantLock i r c =>
+      cases ho : s.owner with
+      | some _ => rw [ho] at hs; cases hs
+      | none =>
+        rw [ho] at hs
+        simp only [Option.some.injEq] at hs; subst hs
+        refine none_step ⟨hmax0, ?_⟩
+        obtain ⟨_, hm⟩ := hsim
+        rw [ho] at hm
+        simp only
+        exact ⟨_, set_self hp, hm⟩
+    | locked i r c =>
+      have hpc : SimPc s.g a (Pc.locked i r c) := sim_owner_pc _ h hsim hp rfl
+      obtain ⟨hc, hst⟩ := hpc
+      simp only at hs
+      cases hf : find i s.g.states with
+      | some st =>
+        have hfa : find i a.states = some st := by rw [hst]; exact hf
+        rw [hf] at hs
+        simp only at hs
+        split at hs <;> (simp only [Option.some.injEq] at hs; subst hs)
+        · -- removal takes effect now
+          rename_i hneg
+          refine one_step (.set i r c) ?_ rfl
+          show Sim _ (setState a i r c).1
+          rw [setState_remove_some a i r c st hneg hfa]
+          refine sim_owner_step h hp rfl hmax0 ⟨by show erase i a.states = erase i s.g.states; rw [hst], ?_⟩
+          show wrap32 (a.count + wrap32 (-st.count)) = wrap32 (s.g.count + wrap32 (-st.count))
+          rw [hc]
+        · rename_i hneg
+          refine none_step (sim_owner_step h hp rfl hmax0 ⟨by omega, hc.symm, ?_⟩)
+          rw [ensure_eq_of_find hfa, hst]
+      | none =>
+        have hfa : find i a.states = none := by rw [hst]; exact hf
+        rw [hf] at hs
+        simp only at hs
+        split at hs <;> (simp only [Option.some.injEq] at hs; subst hs)
+        · rename_i hneg
+          refine one_step (.set i r c) ?_ rfl
+          show Sim _ (setState a i r c).1
+          rw [setState_remove_none a i r c hneg hfa]
+          exact sim_owner_step h hp rfl hmax0 ⟨hc, hst⟩
+        · rename_i hneg
+          refine none_step (sim_owner_step h hp rfl hmax0 ⟨by omega, hc.symm, ?_⟩)
+          show put i _ s.g.states = (ensure a i).states
+          unfold ensure; rw [hfa, hst]
+    | rmDeleted st =>
+      have hpc : SimPc s.g a (Pc.rmDeleted st) := sim_owner_pc _ h hsim hp rfl
+      obtain ⟨hst, hc⟩ := hpc
+      simp only [Option.some.injEq] at hs; subst hs
+      exact none_step (sim_owner_step h hp rfl hmax0 ⟨hc, hst⟩)
+    | unlocking rep =>
+      have hpc : SimPc s.g a (Pc.unlocking rep) := sim_owner_pc _ h hsim hp rfl
+      obtain ⟨hc, hst⟩ := hpc
+      simp only [Option.some.injEq] at hs; subst hs
+      exact none_step ⟨hmax0, hc, hst⟩
+    | haveState i r c =>
+      have hpc : SimPc s.g a (Pc.haveState i r c) := sim_owner_pc _ h hsim hp rfl
+      obtain ⟨h0, hc, hst⟩ := hpc
+      have hfe : find i s.g.states = some (stateOf a i) := by rw [hst]; exact ensure_find a i
+      simp only at hs
+      split at hs
+      · rename_i hr
+        rw [hfe] at hs
+        simp only at hs
+        split at hs <;> (simp only [Option.some.injEq] at hs; subst hs)
+        · -- stale: refused now
+          rename_i hle
+          refine one_step (.set i r c) ?_ rfl
+          show Sim _ (setState a i r c).1
+          rw [setState_report a i r c h0, report_stale _ _ _ _ _ ⟨hr, hle⟩]
+          refine sim_owner_step h hp rfl (by rw [ensure_max]; exact hmax0) ⟨?_, hst.symm⟩
+          rw [ensure_count]; exact hc.symm
+        · rename_i hle
+          exact none_step (sim_owner_step h hp rfl hmax0 ⟨h0, hc, hst, hr, hle⟩)
+      · rename_i hr
+        simp only [Option.some.injEq] at hs; subst hs
+        refine none_step (sim_owner_step (p' := Pc.idStored i r c) h hp rfl hmax0 ⟨h0, hc, fun hh => hr hh.1, ?_⟩)
+        have : newId (stateOf a i) r = (stateOf a i).requestId := by unfold newId; rw [if_neg hr]
+        rw [this, hst]
+        exact (put_same (ensure_find a i)).symm
+    | idChecked i r c =>
+      have hpc : SimPc s.g a (Pc.idChecked i r c) := sim_owner_pc _ h hsim hp rfl
+      obtain ⟨h0, hc, hst, hr, hle⟩ := hpc
+      have hfe : find i s.g.states = some (stateOf a i) := by rw [hst]; exact ensure_find a i
+      simp only at hs
+      rw [hfe] at hs
+      simp only [Option.some.injEq] at hs; subst hs
+      refine none_step (sim_owner_step h hp rfl hmax0 ⟨h0, hc, fun hh => hle hh.2, ?_⟩)
+      have : newId (stateOf a i) r = r := by unfold newId; rw [if_pos hr]
+      rw [this, hst]
+    | idStored i r c =>
+      have hpc : SimPc s.g a (Pc.idStored i r c) := sim_owner_pc _ h hsim hp rfl
+      obtain ⟨h0, hc, hns, hst⟩ := hpc
+      have hfe : find i s.g.states = some ⟨(stateOf a i).count, newId (stateOf a i) r⟩ := by
+        rw [hst]; exact find_put_self _ _ _
+      simp only at hs
+      rw [hfe] at hs
+      simp only [Option.some.injEq] at hs; subst hs
+      refine none_step (sim_owner_step h hp rfl hmax0 ⟨h0, hc, hns, rfl, ?_⟩)
+      show put i _ s.g.states = _
+      rw [hst, put_put]
+    | swapped i r c old =>
+      have hpc : SimPc s.g a (Pc.swapped i r c old) := sim_owner_pc _ h hsim hp rfl
+      obtain ⟨h0, hc, hns, hold, hst⟩ := hpc
+      simp only [Option.some.injEq] at hs; subst hs
+      refine none_step (sim_owner_step h hp rfl hmax0 ⟨h0, hns, hold, rfl, ?_, rfl, hst⟩)
+      rw [hc]
+    | added i r c old delta cnt =>
+      have hpc : SimPc s.g a (Pc.added i r c old delta cnt) := sim_owner_pc _ h hsim hp rfl
+      obtain ⟨h0, hns, hold, hdelta, hcnt, hgc, hst⟩ := hpc
+      -- the atomic step, in closed form
+      have habs : setState a i r c = report (ensure a i) i (stateOf a i) r c := setState_report a i r c h0
+      have hrep := report_eq (ensure a i) i (stateOf a i) r c
+      rw [if_neg hns] at hrep
+      simp only [ensure_count, ensure_max] at hrep
+      rw [← hold, ← hdelta, ← hcnt, hmax0] at hrep
+      simp only at hs
+      refine one_step (.set i r c) ?_ rfl
+      show Sim s' (setState a i r c).1
+      rw [habs, hrep]
+      split at hs
+      · rename_i hdec
+        simp only [Option.some.injEq] at hs; subst hs
+        rw [if_pos hdec]
+        refine sim_owner_step h hp rfl rfl ?_
+        refine ⟨c, newId (stateOf a i) r, by rw [hst]; exact find_put_self _ _ _, ?_, ?_⟩
+        · show put i _ (ensure a i).states = put i _ s.g.states
+          rw [hst, put_put]
+        · show wrap32 (cnt + wrap32 (-delta)) = wrap32 (s.g.count + wrap32 (-delta))
+          rw [hgc]
+      · rename_i hdec
+        rw [if_neg hdec]
+        split at hs <;> (simp only [Option.some.injEq] at hs; subst hs)
+        · rename_i h2
+          rw [if_pos h2]
+          exact sim_owner_step h hp rfl rfl
+            ⟨by show cnt = s.g.count; exact hgc.symm, by show put i _ (ensure a i).states = s.g.states; exact hst.symm⟩
+        · rename_i h2
+          rw [if_neg h2]
+          exact sim_owner_step h hp rfl rfl
+            ⟨by show cnt = s.g.count; exact hgc.symm, by show put i _ (ensure a i).states = s.g.states; exact hst.symm⟩
+    | rollback1 i old delta =>
+      have hpc : SimPc s.g a (Pc.rollback1 i old delta) := sim_owner_pc _ h hsim hp rfl
+      obtain ⟨c, id, hf, hst, hc⟩ := hpc
+      simp only at hs
+      rw [hf] at hs
+      simp only [Option.some.injEq] at hs; subst hs
+      exact none_step (sim_owner_step h hp rfl hmax0 ⟨hst, hc⟩)
+    | rollback2 old delta =>
+      have hpc : SimPc s.g a (Pc.rollback2 old delta) := sim_owner_pc _ h hsim hp rfl
+      obtain ⟨hst, hc⟩ := hpc
+      simp only [Option.some.injEq] at hs; subst hs
+      exact none_step (sim_owner_step h hp rfl hmax0 ⟨hc, hst⟩)
+
+/-- shape of a step: only the stepping thread's pc changes, and the call it is executing stays the same, is
+    finished, or (from `idle`) is the call handed in -/
+theorem fineStep_shape (s s' : Fine) (t : Nat) (call : Option Op) (hs : fineStep s t call = some s') :
+    ∃ pc, s.pcs[t]? = some pc ∧ ∃ g' o' p', s' = ⟨g', o', s.pcs.set t p'⟩ ∧
+      (pendingOp p' = none ∨ pendingOp p' = pendingOp pc ∨ pendingOp p' = call) := by
+  unfold fineStep at hs
+  cases hp : s.pcs[t]? with
+  | none => rw [hp] at hs; cases hs
+  | some pc =>
+    rw [hp] at hs
+    simp only [setPc] at hs
+    refine ⟨pc, rfl, ?_⟩
+    cases pc with
+    | idle =>
+      cases call with
+      | none => cases hs
+      | some op =>
+        cases op with
+        | set i r c =>
+          simp only [Option.some.injEq] at hs; subst hs
+          exact ⟨_, _, _, rfl, Or.inr (Or.inr rfl)⟩
+        | resize n =>
+          simp only at hs
+          split at hs <;> (simp only [Option.some.injEq] at hs; subst hs)
+          · exact ⟨_, _, _, rfl, Or.inr (Or.inr rfl)⟩
+          · exact ⟨_, _, _, rfl, Or.inl rfl⟩
+    | resizeStore n =>
+      simp only [Option.some.injEq] at hs; subst hs; exact ⟨_, _, _, rfl, Or.inl rfl⟩
+    | wantLock i r c =>
+      cases ho : s.owner with
+      | some _ => rw [ho] at hs; cases hs
+      | none =>
+        rw [ho] at hs
+        simp only [Option.some.injEq] at hs; subst hs; exact ⟨_, _, _, rfl, Or.inr (Or.inl rfl)⟩
+    | locked i r c =>
+      simp only at hs
+      cases hf : find i s.g.states with
+      | some st =>
+        rw [hf] at hs
+        simp only at hs
+        split at hs <;> (simp only [Option.some.injEq] at hs; subst hs)
+        · exact ⟨_, _, _, rfl, Or.inl rfl⟩
+        · exact ⟨_, _, _, rfl, Or.inr (Or.inl rfl)⟩
+      | none =>
+        rw [hf] at hs
+        simp only at hs
+        split at hs <;> (simp only [Option.some.injEq] at hs; subst hs)
+        · exact ⟨_, _, _, rfl, Or.inl rfl⟩
+        · exact ⟨_, _, _, rfl, Or.inr (Or.inl rfl)⟩
+    | rmDeleted st =>
+      simp only [Option.some.injEq] at hs; subst hs; exact ⟨_, _, _, rfl, Or.inl rfl⟩
+    | unlocking rep =>
+      simp only [Option.some.injEq] at hs; subst hs; exact ⟨_, _, _, rfl, Or.inl rfl⟩
+    | haveState i r c =>
+      simp only at hs
+      split at hs
+      · cases hf : find i s.g.states with
+        | none => rw [hf] at hs; cases hs
+        | some st =>
+          rw [hf] at hs
+          simp only at hs
+          split at hs <;> (simp only [Option.some.injEq] at hs; subst hs)
+          · exact ⟨_, _, _, rfl, Or.inl rfl⟩
+          · exact ⟨_, _, _, rfl, Or.inr (Or.inl rfl)⟩
+      · simp only [Option.some.injEq] at hs; subst hs; exact ⟨_, _, _, rfl, Or.inr (Or.inl rfl)⟩
+    | idChecked i r c =>
+      simp only at hs
+      cases hf : find i s.g.states with
+      | none => rw [hf] at hs; cases hs
+      | some st =>
+        rw [hf] at hs
+        simp only [Option.some.injEq] at hs; subst hs; exact ⟨_, _, _, rfl, Or.inr (Or.inl rfl)⟩
+    | idStored i r c =>
+      simp only at hs
+      cases hf : find i s.g.states with
+      | none => rw [hf] at hs; cases hs
+      | some st =>
+        rw [hf] at hs
+        simp only [Option.some.injEq] at hs; subst hs; exact ⟨_, _, _, rfl, Or.inr (Or.inl rfl)⟩
+    | swapped i r c old =>
+      simp only [Option.some.injEq] at hs; subst hs; exact ⟨_, _, _, rfl, Or.inr (Or.inl rfl)⟩
+    | added i r c old delta cnt =>
+      simp only at hs
+      split at hs
+      · simp only [Option.some.injEq] at hs; subst hs; exact ⟨_, _, _, rfl, Or.inl rfl⟩
+      · split at hs <;> (simp only [Option.some.injEq] at hs; subst hs) <;> exact ⟨_, _, _, rfl, Or.inl rfl⟩
+    | rollback1 i old delta =>
+      simp only at hs
+      cases hf : find i s.g.states with
+      | none => rw [hf] at hs; cases hs
+      | some st =>
+        rw [hf] at hs
+        simp only [Option.some.injEq] at hs; subst hs; exact ⟨_, _, _, rfl, Or.inl rfl⟩
+    | rollback2 old delta =>
+      simp only [Option.some.injEq] at hs; subst hs; exact ⟨_, _, _, rfl, Or.inl rfl⟩
+
+/-- **The reduction, along a whole run**: there is a list `lin` of atomic operations — each one a call that some
+    thread was executing — whose sequential execution is simulated by the fine-grained run. -/
+theorem fineRun_sim (sched : List (Nat × Option Op)) (s s' : Fine) (a : G) (calls : List Op) (h : FInv s)
+    (hsim : Sim s a)
+    (hpend : ∀ (t : Nat) (pc : Pc) (op : Op), s.pcs[t]? = some pc → pendingOp pc = some op → op ∈ calls)
+    (hcalls : ∀ e ∈ sched, ∀ op, e.2 = some op → OpI32 op) (hr : fineRun s sched = some s') :
+    ∃ lin : List Op, Sim s' (run a lin) ∧ ∀ op ∈ lin, op ∈ calls ++ sched.filterMap (·.2) := by
+  induction sched generalizing s a calls with
+  | nil =>
+    simp only [fineRun, Option.some.injEq] at hr; subst hr
+    exact ⟨[], hsim, fun _ hm => by cases hm⟩
+  | cons e rest ih =>
+    obtain ⟨t, call⟩ := e
+    simp only [fineRun] at hr
+    cases hst : fineStep s t call with
+    | none => rw [hst] at hr; cases hr
+    | some s1 =>
+      rw [hst] at hr
+      have h1 := fineStep_inv s s1 t call h (hcalls (t, call) (List.mem_cons_self ..)) hst
+      obtain ⟨ops, hsim1, hops⟩ := fineStep_sim s s1 a t call h hsim hst
+      -- pending calls after the step
+      have hpend1 : ∀ (t' : Nat) (pc : Pc) (op : Op), s1.pcs[t']? = some pc → pendingOp pc = some op →
+          op ∈ calls ++ call.toList := by
+        intro t' pc' op hp' hpo
+        obtain ⟨pc, hp, g', o', p', hs1, hsh⟩ := fineStep_shape s s1 t call hst
+        subst hs1
+        by_cases ht : t' = t
+        · subst ht
+          rw [set_self hp] at hp'; cases hp'
+          rcases hsh with h0 | h0 | h0
+          · rw [h0] at hpo; cases hpo
+          · rw [h0] at hpo; exact List.mem_append_left _ (hpend t' pc op hp hpo)
+          · rw [h0] at hpo; subst hpo; exact List.mem_append_right _ (by simp)
+        · rw [set_other ht] at hp'
+          exact List.mem_append_left _ (hpend t' pc' op hp' hpo)
+      obtain ⟨lin, hsim2, hlin⟩ := ih s1 (run a ops) (calls ++ call.toList) h1 hsim1 hpend1
+        (fun e he => hcalls e (List.mem_cons_of_mem _ he)) hr
+      refine ⟨ops ++ lin, ?_, ?_⟩
+      · have : run a (ops ++ lin) = run (run a ops) lin := by simp [run, List.foldl_append]
+        rw [this]; exact hsim2
+      · intro op hm
+        rw [List.mem_append] at hm
+        have hfm : (((t, call) :: rest).filterMap (·.2)) = call.toList ++ rest.filterMap (·.2) := by
+          cases call <;> simp
+        rw [hfm]
+        rcases hm with hm | hm
+        · obtain ⟨pc, hp, hpo⟩ := hops op hm
+          exact List.mem_append_left _ (hpend t pc op hp hpo)
+        · have := hlin op hm
+          simp only [List.mem_append] at this ⊢
+          rcases this with (h1 | h1) | h1
+          · exact Or.inl h1
+          · exact Or.inr (Or.inl h1)
+          · exact Or.inr (Or.inr h1)
+
 
 end KG.Lemmas.GlobalCount
